@@ -27,4 +27,5 @@ Extraction "model.ml"
   (* Collections *) cp_run cbind cp_value cv_new cv_from_storage cv_step cv_run cv_remove_from_storage ce_u64 ce_i64 ce_string ce_raw ce_state
                     cl_step cl_run cm_new cm_from_storage cm_step cm_run ct_step cg_new cg_from_storage cg_step cg_run ga_step
                     cg_free_index cg_node_count cg_set_node_count cr_load cr_store cr_create
-                    ce_dbvalue ce_pair ce_dbkv.
+                    ce_dbvalue ce_pair ce_dbkv
+  (* StoredDb *) load_db sd_load sd_step.
